@@ -3,7 +3,7 @@
 # writes /verif/seeded/<name>/suite.txt with the comparison against BASELINE.json's stable_pass list.
 name=$1; wt=/tmp/confirm_$name
 git -C /repo worktree add -q $wt HEAD && cd $wt && git apply /verif/seeded/$name/patch.diff \
- && VERIF_REPO=$wt /venv/bin/python /verif/tools/baseline_check.py -n 6 > /verif/seeded/$name/suite.txt 2>&1
+ && VERIF_REPO=$wt /venv/bin/python /verif/tools/baseline_check.py -n 4 > /verif/seeded/$name/suite.txt 2>&1
 rc=$?
 cd /; git -C /repo worktree remove --force $wt
 echo "$name suite rc=$rc: $(tail -1 /verif/seeded/$name/suite.txt | head -c 200)"
